@@ -20,8 +20,9 @@ def run_prop(prop, extra_parts=()):
     for c in cases[:3]:
         from .gen import program_src
 
-        if "stmts" in c:
-            samples.append({"case": c["id"], "program": program_src(c["stmts"], "min"), "compiled": results.get(c["id"], {}).get("compiled")})
+        st = c.get("stmts") or (c.get("pairs") or [{}])[0].get("a", {}).get("stmts")
+        if st:
+            samples.append({"case": c["id"], "program": program_src(st, "min"), "compiled": (results.get(c["id"], {}).get("compiled") or [])[:4]})
     cov = {
         "programs": stats["accepted_compiles"],
         "disagreements_checked": run.queries.get("sat", 0),
